@@ -53,7 +53,11 @@ def _one(args):
     try:
         status, results, violations = report.run_property(
             mod.PID, mod.RULES, repo, 'thorough', '', [], write_evidence=False, quiet=True)
-    except AnalysisError as e:
+    except Exception as e:
+        if not isinstance(e, AnalysisError):
+            import traceback
+            return (spec['name'], 'survived' if kind == 'mutant' else 'alarm',
+                    'INTERNAL ERROR in the checker: ' + traceback.format_exc().strip().splitlines()[-1])
         # an analysis error on a mutant means the checker refuses to pass it: counts as detected
         # for MUTANTS, and as an alarm for EQUIV
         return (spec['name'], 'killed' if kind == 'mutant' else 'alarm', f'ANALYSIS-ERROR {e}')
